@@ -1,0 +1,12 @@
+package validator
+
+import "fmt"
+
+// recoverAsError turns a panic raised while processing caller-supplied text (profile, data or the
+// result of embedded Rego) into an error of the enclosing function: entry points report bad input,
+// they do not crash the caller.
+func recoverAsError(stage string, err *error) {
+	if r := recover(); r != nil {
+		*err = fmt.Errorf("%s failed: %v", stage, r)
+	}
+}
